@@ -64,7 +64,7 @@ def variants(row, tier):
     d = ("default", "default", "memory", "string", 1)
     out = [d]
     axes = [
-        [("oblique",), ("nonterm",), ("eq_ab",), ("eq_bc",), ("eq_ac",)],
+        [("oblique",), ("nonterm",), ("pseudo",), ("eq_ab",), ("eq_bc",), ("eq_ac",)],
         [("two_letter",), ("twelve",), ("half_occ",), ("occ_values",), ("precise",), ("far",), ("misleading_labels",)],
         [("from_cif",), ("from_res",), ("from_rich_cif",)],
         [("file",)],
@@ -111,6 +111,8 @@ def cell_for(row, cellvar):
         return cells[0]
     if cellvar == "oblique":
         return cells[1]
+    if cellvar == "pseudo":
+        return lattice.pseudo_special_cell(row["number"], row["choice"])    # free parameters a hair off whole numbers / 90 / 120 degrees
     return nonterminating(cells[0])
 
 
@@ -635,7 +637,7 @@ def run(ctx):
 
     table = symm.load_table()
     nvar = len(variants(table[0], ctx.tier))
-    ctx.rule = ("530 settings x {CIF, .res, POSCAR} x %d variants within %d deviation(s) of the default (cell: oblique / non-terminating / accidentally equal lengths a=b, b=c, a=c; asymmetric unit: "
+    ctx.rule = ("530 settings x {CIF, .res, POSCAR} x %d variants within %d deviation(s) of the default (cell: oblique / non-terminating / free parameters a hair off whole numbers and special angles / accidentally equal lengths a=b, b=c, a=c; asymmetric unit: "
                 "two-letter elements+suffix labels / 12 atoms / half occupancies / occupancies 1, 0, 1/4, 3/4, 1/3 / 12-digit coordinates; provenance: from CIF / from a refinement-style CIF with extra same-prefix loops of other lengths / from .res; route: "
                 "files incl. POSCAR, CONTCAR; two generations); states = settings, transitions = save->load steps, traces = texts read by the "
                 "independent reference readers" % (nvar, 2 if ctx.thorough else 1))
